@@ -3,12 +3,12 @@
 # Confirms in the scratch worktree /tmp/mut/<ID>: with the patch the existing suite passes and the demo fails;
 # without it the demo passes. Then copies patch + demo into /verif/seeded/<name>/.
 set -u
-ID=$1; NAME=$2; W=/tmp/mut/$ID
+ID=$1; NAME=$2; BASE=${3:-/tmp/mut}; W=$BASE/$ID
 cd $W || exit 2
 export CARGO_NET_OFFLINE=true
 DEMO=$(ls tests/demo_*.rs | head -1); DEMON=$(basename $DEMO .rs)
-git diff -- src > /tmp/mut/$ID.patch
-[ -s /tmp/mut/$ID.patch ] || cp patch.diff /tmp/mut/$ID.patch
+git diff -- src > $BASE/$ID.patch
+[ -s $BASE/$ID.patch ] || cp patch.diff $BASE/$ID.patch
 echo "== with patch: existing suite"
 cargo test --offline --no-fail-fast 2>&1 | grep -E "^test result|^     Running|Doc-tests" | paste - - | grep -v "$DEMON" | awk '{print $NF, $0}' | cut -c1-200
 echo "== with patch: demo"
@@ -16,9 +16,9 @@ cargo test --offline --test $DEMON 2>&1 | grep -E "^test result|FAILED" | tr '\n
 git checkout -q -- src
 echo "== without patch: demo"
 cargo test --offline --test $DEMON 2>&1 | grep -E "^test result|FAILED" | tr '\n' ' '; echo
-git apply /tmp/mut/$ID.patch
+git apply $BASE/$ID.patch
 mkdir -p /verif/seeded/$NAME
-cp /tmp/mut/$ID.patch /verif/seeded/$NAME/patch.diff
+cp $BASE/$ID.patch /verif/seeded/$NAME/patch.diff
 cp $DEMO /verif/seeded/$NAME/
 [ -f NOTES.md ] && cp NOTES.md /verif/seeded/$NAME/NOTES.md
 echo copied to /verif/seeded/$NAME
